@@ -116,6 +116,13 @@ func RunHistory(ctx context.Context, cfg HistoryConfig) *HistoryResult {
 		stateDiverged := (exp.Kind == "") != (res.Kind == "")
 		stop := record(divs)
 		if stateDiverged {
+			// The model was not advanced. A call that was to fail but succeeded may have done
+			// anything: compare the whole API-visible state with the (unchanged) model, so that
+			// its effect is reported under the field it damaged (existence, content, versions,
+			// ...) and not only as an unexpected outcome of the call itself.
+			if exp.Kind != "" && res.Kind == "" {
+				stop = record(CompareSnapshot(ctx, cfg.Storage, m)) || stop
+			}
 			if !stop {
 				h.Aborted = fmt.Sprintf("out-of-scope state divergence at step %d: %s", step, divs[0].What)
 			}
